@@ -138,9 +138,17 @@ class Ctx:
         ok = 'Model checking completed. No error has been found' in out
         return gen, dist, violated, ok
 
-    def tlc_model(self, module, cfg, workers=NCPU, timeout=900, env=None, extra=(), expect_violations=False,
-                  label=None, xmx='8g'):
-        """Run one model-checking configuration.  Returns dict(states, distinct, violated, ok, out)."""
+    def tlc_model(self, module, cfg, **kw):
+        """Run one model-checking configuration (one retry on a machinery failure: transient resource shortage)."""
+        try:
+            return self._tlc_model_once(module, cfg, **kw)
+        except MachineryError:
+            time.sleep(2.0)
+            return self._tlc_model_once(module, cfg, **kw)
+
+    def _tlc_model_once(self, module, cfg, workers=NCPU, timeout=900, env=None, extra=(), expect_violations=False,
+                        label=None, xmx='6g'):
+        """Returns dict(states, distinct, violated, ok, out)."""
         metadir = tempfile.mkdtemp(prefix='mc.', dir=self.scratch)
         e = dict(os.environ)
         e.update(env or {})
@@ -182,13 +190,20 @@ class Ctx:
         return r
 
     def _run_shard(self, module, cfg, k, events):
+        try:
+            return self._run_shard_once(module, cfg, k, events)
+        except (MachineryError, subprocess.TimeoutExpired, OSError, ValueError):
+            time.sleep(2.0)                      # transient resource shortage (many JVMs): one retry
+            return self._run_shard_once(module, cfg, k, events)
+
+    def _run_shard_once(self, module, cfg, k, events):
         d = os.path.join(self.scratch, f'tr{k}.{time.time_ns()}')
         os.makedirs(d)
         tf, of = os.path.join(d, 'trace.json'), os.path.join(d, 'out.json')
         with open(tf, 'w') as f:
             json.dump({'events': events}, f, separators=(',', ':'))
         e = dict(os.environ, TRACE_FILE=tf, OUT_FILE=of)
-        cmd = self._tlc_cmd(module + '.tla', os.path.join(SPEC, cfg), 1, os.path.join(d, 'meta'), xmx='3g')
+        cmd = self._tlc_cmd(module + '.tla', os.path.join(SPEC, cfg), 1, os.path.join(d, 'meta'), xmx='2g')
         p = subprocess.run(cmd, cwd=SPEC, env=e, capture_output=True, text=True, timeout=3600)
         out = p.stdout + p.stderr
         gen, dist, violated, ok = self._parse_tlc(out)
